@@ -391,6 +391,12 @@ func (jenny RawTypes) defaultsForStructRec(context languages.Context, objectRef 
 				disjunctionBranchName := formatFieldName(anyToDisjunctionBranchName(extraDefault))
 				disjunctionBranch, found := resolvedFieldType.Struct.FieldByName(disjunctionBranchName)
 				if !found {
+					// a number is not always held by the branch named after its Go type: `2` given to
+					// `string | float64`, `5` given to `string | int32`
+					disjunctionBranch, found = numericBranchFor(*resolvedFieldType.Struct, extraDefault)
+					disjunctionBranchName = disjunctionBranch.Name
+				}
+				if !found {
 					disjunctionBranchName = "Any"
 					disjunctionBranch, _ = resolvedFieldType.Struct.FieldByName(disjunctionBranchName)
 				}
